@@ -251,7 +251,9 @@ impl HandshakeState {
                 Token::S => {
                     if !self.s.is_on() {
                         return Err(StateProblem::MissingKeyMaterial.into());
-                    } else if byte_index + self.s.pub_len() > message.len() {
+                    } else if byte_index + self.s.pub_len() + TAGLEN > message.len() {
+                        // The static key may be followed by its tag; the payload's tag, checked below,
+                        // needs at least as much room, so this never rejects a message that fits.
                         return Err(Error::Input);
                     }
 
